@@ -105,6 +105,7 @@ func parsed(text string) *mentions {
 var grammar *g4.Grammar
 
 func genG4(t *rapid.T) Case {
+	corpus.OddTextParsed()
 	if grammar == nil {
 		g, err := g4.Load()
 		if err != nil {
@@ -187,6 +188,7 @@ func mutate(t *rapid.T, q string) string {
 }
 
 func genMut(t *rapid.T) Case {
+	corpus.OddTextParsed()
 	qs := corpus.Queries()
 	q := qs[rapid.IntRange(0, len(qs)-1).Draw(t, "q")]
 	text := mutate(t, q)
